@@ -58,6 +58,14 @@ class SymDict(dict):
             out.append((z3.And(*none_before, self._init_has(k)), self._init_get(k)))
         return out
 
+    def map_values(self, f):
+        """lazy element-wise map (used by the jtu.tree_map stub)"""
+        g = self._init_get
+        d = SymDict(self.name + "'", init_has=self._init_has, init_get=(lambda k: f(g(k))) if g else None,
+                    nonempty=self._nonempty)
+        d.writes = [(k, f(v)) for k, v in self.writes]
+        return d
+
     def written_keys(self):
         return [wk for wk, _ in self.writes]
 
